@@ -168,8 +168,8 @@ def oracle(case):
         return core.viol('step-budget', 'more than %d package lines for a %d-char literal' % (cap, len(s)))
     if p.exc is not None:
         return core.viol('pformat-raised', repr(p.exc))
-    if p.warnings:
-        return core.viol('warning', p.warnings[0][:300])
+    if p.fallback_warnings():
+        return core.viol('printer-failed', p.fallback_warnings()[0][:300])
     text = p.text
     from .. import vtypes
     try:
